@@ -1028,3 +1028,54 @@ def measured_qubits_rule(ctx, rid):
     ok = not keyed
     ctx.ob(rid, f'{sb.qual}._core_iterator:no-tuple-key', ok, '' if ok else f'`{ast.unparse(keyed[0])}` identifies measured qubits by the operation\'s whole qubit tuple: noise on (q0,) after a '
            'deferred measure(q0, q1) is not recognised as acting on measured qubits and flips the sampled bits', sb.mod.rel, (keyed[0].lineno if keyed else fn.lineno))
+
+
+def ancilla_initial_state_rule(ctx, rid):
+    """A function that enlarges the program with ancilla qubits (defer_measurements) cannot pass an integer initial_state through unchanged."""
+    repo = ctx.repo
+    ctx.rule(rid, 'integer initial state vs. added ancillas: a function of cirq.sim that rewrites its circuit with defer_measurements and hands its own initial_state parameter to a simulator '
+             're-binds that parameter under an isinstance(..., int) test before the call (the integer indexes basis states of the original qubits only)', floor=1, style='MPT')
+    n = 0
+    for m in sorted(repo.modules.values(), key=lambda x: x.rel):
+        if not m.rel.startswith('cirq-core/cirq/sim/') or m.rel.endswith('_test.py'):
+            continue
+        for fn in [f for f in ast.walk(m.tree) if isinstance(f, ast.FunctionDef)]:
+            params = {a.arg for a in fn.args.args + fn.args.kwonlyargs}
+            if not any(isinstance(c, ast.Call) and (call_name(c) or '').split('.')[-1] == 'defer_measurements' for c in ast.walk(fn)):
+                continue
+            sims = [c for c in ast.walk(fn) if isinstance(c, ast.Call) and isinstance(c.func, ast.Attribute) and c.func.attr in ('simulate', 'simulate_sweep', 'simulate_moment_steps')]
+            # names assigned (plain assignment chains, in source order) from the result of defer_measurements: name -> line from which it holds the enlarged circuit
+            enlarged = {}
+            grew = True
+            while grew:
+                grew = False
+                for a_ in ast.walk(fn):
+                    if isinstance(a_, ast.Assign) and len(a_.targets) == 1 and isinstance(a_.targets[0], ast.Name) and a_.targets[0].id not in enlarged:
+                        v = a_.value
+                        direct = any(isinstance(x, ast.Call) and (call_name(x) or '').split('.')[-1] == 'defer_measurements' for x in ast.walk(v)) and not isinstance(v, ast.Compare)
+                        via = isinstance(v, (ast.Name, ast.Call)) and any(isinstance(x, ast.Name) and x.id in enlarged and enlarged[x.id] < a_.lineno for x in ast.walk(v))
+                        if direct or via:
+                            enlarged[a_.targets[0].id] = a_.lineno
+                            grew = True
+            for c in sims:
+                prog = c.args[0] if c.args else next((k.value for k in c.keywords if k.arg in ('program', 'circuit')), None)
+                if prog is None or not any(isinstance(x, ast.Name) and x.id in enlarged and enlarged[x.id] < c.lineno for x in ast.walk(prog)):
+                    continue  # simulates the circuit as given: no ancillas
+                passed = [k.value.id for k in c.keywords if k.arg == 'initial_state' and isinstance(k.value, ast.Name) and k.value.id in params]
+                for p in passed:
+                    n += 1
+                    fixes = []
+                    for i_ in ast.walk(fn):
+                        if isinstance(i_, ast.If) and any(isinstance(t, ast.Call) and call_name(t) == 'isinstance' and t.args and isinstance(t.args[0], ast.Name) and t.args[0].id == p
+                                                         and 'int' in ast.unparse(t.args[1]) for t in ast.walk(i_.test)):
+                            for s_ in ast.walk(i_):
+                                if isinstance(s_, (ast.Assign, ast.AugAssign)):
+                                    tg = s_.targets[0] if isinstance(s_, ast.Assign) else s_.target
+                                    if isinstance(tg, ast.Name) and tg.id == p and s_.lineno < c.lineno:
+                                        fixes.append(s_)
+                    ok = bool(fixes)
+                    ctx.ob(rid, f'{m.name}.{fn.name}:{p}', ok, '' if ok else
+                           f'{fn.name} simulates a circuit enlarged by defer_measurements with `{p}` passed through unchanged: an integer is then read as a basis state of qubits + ancillas '
+                           '(initial_state=2 on two qubits prepares |01>|0> instead of |10>|0>)', m.rel, c.lineno)
+    if n == 0:
+        raise AnalysisError(f'{rid}: no simulation of a deferred circuit with an initial_state parameter found')
